@@ -380,17 +380,27 @@ def _nontrivial(h, out):
 def _run(ctx, name, n, do_model):
     rng = ctx.sub_rng(name)
     gen = c05_gen.HistGen(rng, exhaustive=c05_gen.sweep(rng, ctx.tier == "thorough") if do_model else None)
-    hists = (_corpus() if do_model else []) + [gen.history(None) for _ in range(n)]
-    # the systematic sweep must be used up: keep generating until it is
-    guard = 0
-    while do_model and any(gen.exhaustive.values()) and guard < 20000:
-        hists.append(gen.history(None))
-        guard += 1
-    lines, reals, cases = [], [], []
-    stuck = 0
-    for h in hists:
-        if stuck >= 3:
+    state = {"stuck": 0, "made": 0}
+
+    def chunks():
+        if do_model:
+            yield _corpus()
+        while state["made"] < n or (do_model and any(gen.exhaustive.values()) and state["made"] < n + 20000):
+            k = min(1000, max(n - state["made"], 200))      # the systematic sweep must be used up, too
+            state["made"] += k
+            yield [gen.history(None) for _ in range(k)]
+
+    for hists in chunks():
+        if state["stuck"] >= 3:
             ctx.notes.append("C05: stopped after 3 stuck / unsettled runs (every further one would wait for its deadline again)")
+            break
+        _run_chunk(ctx, gen, hists, do_model, state)
+
+
+def _run_chunk(ctx, gen, hists, do_model, state):
+    lines, reals, cases = [], [], []
+    for h in hists:
+        if state["stuck"] >= 3:
             break
         for st in ("thread", "multiplex"):
             ml = c05_gen.model_line(h, st)
@@ -402,7 +412,7 @@ def _run(ctx, name, n, do_model):
                 if s[0] == "send" and s[1] in h["hostile"]:
                     ctx.count("hostile:" + (s[7] if len(s) > 7 else "semantic").split(":")[0] + (":unclassified" if s[5] is None else ""))
             if out["stuck"] or not out.get("settled", True):
-                stuck += 1
+                state["stuck"] += 1
             if out["stuck"]:
                 continue
             if ml is not None:
@@ -421,17 +431,19 @@ def _run(ctx, name, n, do_model):
                 m = model_canon(c["servertype"], o)
                 if r != m:
                     ctx.mismatch("loop", {"line": l[:3000], "servertype": c["servertype"], "case": c}, r, m)
-        checks = gen.checks
+        checks, gen.checks = gen.checks, []
         if checks:
             outs = common.run_driver("drv_c06", [c[0] for c in checks])
             ctx.corr_cases += len(checks)
             for (l, r), o in zip(checks, outs):
                 if r != o:
                     ctx.mismatch("classify", {"line": l[:800]}, r[:300], o[:300])
+    else:
+        gen.checks = []
 
 
 def correspondence(ctx):
-    _run(ctx, "hist", ctx.n(1200, 25000), True)
+    _run(ctx, "hist", ctx.n(1200, 40000), True)
 
 
 def oracle(ctx):
